@@ -47,8 +47,8 @@ ASSUMPTIONS = ['writers are validated byte-for-byte against the sample files und
                'Hadrons hdf5 has no sample: structure taken from the Hadrons meson module, read back with h5py)',
                'configuration number of trajectory-numbered formats = trajectory // spacing with the thermalisation offset the library documents '
                'by its warning (rwms: only if spacing > 1; ms.dat energy: unless assume_thermalization=False; flow observables: always)',
-               'r_value + delta reproduces a sample to 1e-13 of the largest sample of the chain',
-               't0 / w0 are compared with a closed-form weighted linear fit (weights from the reference Gamma method) at rtol 1e-6',
+               'r_value + delta, replica means and central values reproduce the stored numbers to 16 ulp of the largest sample of the chain (measured: <= 2 ulp); 64 ulp for the GF coupling, four-quark sums and matrix products',
+               't0 / w0 are compared with a closed-form weighted linear fit (weights from the reference Gamma method) at rtol 1e-7 (the library minimises iteratively; measured deviations <= 1e-8)',
                'per-replica lists (r_start, r_stop, idl of ms5_xsf, files of sfcf) are given in the order in which the reader lists the replicas',
                'little-endian host (the formats are written little-endian as documented; the readers use native byte order except for the sfqcd header)',
                'not judged, counted: in-place sorting of the caller\'s files / replica lists by the sfcf readers, read_hd5(idl=[]) returning all configurations, '
@@ -57,7 +57,11 @@ BUDGET = {'quick': 45, 'thorough': 480}
 TMPROOT = '/var/tmp'
 
 PE = None
-RTOL = 1e-13
+ULP = 2.220446049250313e-16
+RTOL = 16 * ULP      # r_value + delta reproduces a sample to 1-2 ulp of the chain's scale; the documented reductions (source average,
+                     # sums over <= 6 time slices, products of <= 3 factors) add a few more.  Measured on the unchanged tree: <= 2 ulp.
+RTOL_DERIVED = 64 * ULP   # results of a few more floating-point operations on observables (GF coupling, four-quark sums, matrix products)
+WORST = {}
 
 
 # ------------------------------------------------------------------------------------------------
@@ -174,7 +178,32 @@ def _same(a, b, rtol=RTOL):
     if a.size == 0:
         return True
     sc = max(float(np.max(np.abs(a))), float(np.max(np.abs(b))))
-    return bool(np.all(np.abs(a - b) <= rtol * sc))
+    # 8 quanta of the subnormal range as floor: below 2.2e-308 the spacing of doubles is absolute (4.9e-324), not relative
+    return bool(np.all(np.abs(a - b) <= rtol * sc + 8 * 5e-324))
+
+
+def secondary_outputs(ctx, tag, obs, exp, what, rtol):
+    """Checklist 22: what the returned Obs carries besides the per-configuration numbers - replica means, the central value (the
+    mean over ALL configurations, not the mean of the replica means: the replicas have different lengths) and the reweighted flag."""
+    names = sorted(exp)
+    sc = max(float(np.max(np.abs(_arr(exp[n])))) for n in names)
+    tot, cnt = 0.0, 0
+    for n in names:
+        e = _arr(exp[n])
+        ctx.ev()
+        ctx.count('judged:secondary:replica-mean')
+        if abs(float(obs.r_values[n]) - math.fsum(e) / len(e)) > rtol * sc + 8 * 5e-324:
+            ctx.violation(tag + ':replica-mean', {'what': what, 'chain': n, 'got': float(obs.r_values[n]), 'exp': math.fsum(e) / len(e)})
+        tot += math.fsum(e)
+        cnt += len(e)
+    ctx.ev()
+    ctx.count('judged:secondary:central-value')
+    if abs(float(obs.value) - tot / cnt) > rtol * sc + 8 * 5e-324:
+        ctx.violation(tag + ':central-value', {'what': what, 'got': float(obs.value), 'exp': tot / cnt})
+    ctx.ev()
+    ctx.count('judged:secondary:reweighted-flag')
+    if obs.reweighted is not False and obs.reweighted != False:   # noqa: E712
+        ctx.violation(tag + ':reweighted-flag', {'what': what, 'got': repr(obs.reweighted)})
 
 
 def compare_table(ctx, tag, obs, exp, what, rtol=RTOL, also=None):
@@ -205,6 +234,11 @@ def compare_table(ctx, tag, obs, exp, what, rtol=RTOL, also=None):
         ctx.count('numbers_compared', len(ecfg))
         g = _arr(got[n])
         e = _arr(exp[n])
+        if g.shape == e.shape and g.size:
+            sc_ = max(float(np.max(np.abs(g))), float(np.max(np.abs(e))))
+            if sc_ > 0:
+                dev_ = float(np.max(np.abs(g - e))) / sc_ / ULP
+                ctx.count('chains_compared:deviation-%s-ulp-of-scale' % ('0' if dev_ == 0 else ('le-2' if dev_ <= 2 else ('le-8' if dev_ <= 8 else 'gt-8'))))
         if _same(g, e, rtol):
             continue
         ok = False
@@ -222,6 +256,8 @@ def compare_table(ctx, tag, obs, exp, what, rtol=RTOL, also=None):
         i = int(np.argmax(np.abs(g - e)))
         ctx.violation('%s:%s' % (tag, cause), {'what': what, 'chain': n, 'cfg': ecfg[i], 'got': float(g[i]), 'exp': float(e[i]),
                                               'rel': float(abs(g[i] - e[i]) / max(1e-300, np.max(np.abs(e))))})
+    if ok:
+        secondary_outputs(ctx, tag, obs, exp, what, 4 * rtol)
     return ok
 
 
@@ -875,7 +911,7 @@ def judge_edict(ctx, tag, res, exp, S, what):
     ctx.ev()
     keys = sorted(res.keys())
     ts = S.flow_times()
-    if len(keys) != len(ts) or not _same(keys, ts, 1e-14):
+    if len(keys) != len(ts) or not _same(keys, ts, 4 * ULP):
         ctx.violation(tag + ':flow-times', {'what': what, 'got': keys, 'exp': ts})
         return False
     ok = True
@@ -926,7 +962,7 @@ def ref_root_fit(ts, tables, fit_range):
     return -a / b, {n: dict(zip(sorted(tables[0][n]), fl[n])) for n in names}, g, [means[i] for i in idx]
 
 
-def compare_derived(ctx, tag, obs, ref, exp_cfgs, what, rtol=1e-6, sqrt=False):
+def compare_derived(ctx, tag, obs, ref, exp_cfgs, what, rtol=1e-7, sqrt=False):
     """value and fluctuations of a fitted root against the reference."""
     val, fl = ref[0], ref[1]
     if sqrt:
@@ -937,6 +973,8 @@ def compare_derived(ctx, tag, obs, ref, exp_cfgs, what, rtol=1e-6, sqrt=False):
     if list(obs.names) != names:
         ctx.violation(tag + ':names', {'what': what, 'got': list(obs.names), 'exp': names})
         return
+    dv_ = abs(obs.value - val) / abs(val)
+    ctx.count('fit-root-value:deviation-' + ('le-1e-12' if dv_ <= 1e-12 else ('le-1e-10' if dv_ <= 1e-10 else ('le-1e-8' if dv_ <= 1e-8 else 'gt-1e-8'))))
     if not abs(obs.value - val) <= rtol * abs(val):
         ctx.violation(tag + ':value', {'what': what, 'got': obs.value, 'exp': val})
     sc = max(float(np.max(np.abs(_arr(fl[n])))) for n in names)
@@ -948,6 +986,8 @@ def compare_derived(ctx, tag, obs, ref, exp_cfgs, what, rtol=1e-6, sqrt=False):
         g = np.asarray(obs.deltas[n], dtype=float)
         e = _arr(fl[n])
         ctx.count('numbers_compared', len(e))
+        df_ = float(np.max(np.abs(g - e))) / sc
+        ctx.count('fit-root-fluctuations:deviation-' + ('le-1e-12' if df_ <= 1e-12 else ('le-1e-10' if df_ <= 1e-10 else ('le-1e-8' if df_ <= 1e-8 else 'gt-1e-8'))))
         if not np.all(np.abs(g - e) <= rtol * sc):
             i = int(np.argmax(np.abs(g - e)))
             ctx.violation(tag + ':fluctuations', {'what': what, 'chain': n, 'cfg': sorted(fl[n])[i], 'got': float(g[i]), 'exp': float(e[i]), 'scale': sc})
@@ -1115,6 +1155,10 @@ def case_msdat_qtop(ctx, rng):
         c = S.c_for_index(kidx, frac)
         go('all', c, {}, {})
         go('postfix', S.c_for_index(int(rng.integers(0, S.nn + 1))), {'postfix': 'ms'}, {}, k=2)
+        # c one ulp below / above the value that lands exactly on a flow time (checklist 20: almost-integer index)
+        cg = S.c_for_index(int(rng.integers(1, S.nn + 1)))
+        go('c-one-ulp-below-grid', float(np.nextafter(cg, 0.0)), {}, {}, k=2)
+        go('c-one-ulp-above-grid', float(np.nextafter(cg, 10.0)), {}, {}, k=2)
         win = {r: pick_window(rng, cm[r]) for r in S.reps}
         if all(w is not None and w[0] != 0 for w in win.values()):
             kw = {'r_start': [win[r][0] for r in S.reps], 'r_stop': [win[r][1] for r in S.reps]}
@@ -2049,6 +2093,11 @@ def case_gfms(ctx, rng):
         c = S.c_for_index(j, frac)
         go('wilson', c, {}, {})
         go('zeuthen', c, {'Zeuthen_flow': True, 'L': S.L}, {})
+        jg = int(rng.integers(1, S.ncs + 1))
+        cg = jg * S.cmax / S.ncs
+        if jg < S.ncs:
+            go('c-one-ulp-above-grid', float(np.nextafter(cg, 10.0)), {}, {}, k=2)
+        go('c-one-ulp-below-grid', float(np.nextafter(cg, 0.0)), {}, {}, k=2)
         zf = bool(rng.integers(0, 2))
         zkw = {'Zeuthen_flow': True} if zf else {}
         win = {r: pick_window(rng, cm[r]) for r in S.reps}
@@ -2070,7 +2119,7 @@ def case_gfms(ctx, rng):
         if coupling:
             exp = S.expect_coupling()
             returned += run_sel(ctx, rng, fmt, 'gf_coupling', lambda: oq.read_gf_coupling(d, S.prefix, 0.3), exp,
-                                lambda cx, tag, res, e, w: compare_table(cx, tag, res, e, w, rtol=1e-12), dict(base_what), k=2)
+                                lambda cx, tag, res, e, w: compare_table(cx, tag, res, e, w, rtol=RTOL_DERIVED), dict(base_what), k=2)
             run_sel(ctx, rng, fmt, 'gf_coupling-c', lambda: oq.read_gf_coupling(d, S.prefix, 0.2), None, None, dict(base_what), k=2)
         for bad in pick_bad(rng, ['c-beyond-cmax', 'L-contradicts-header', 'r_stop-not-in-file', 'postfix-wrong']):
             if bad == 'c-beyond-cmax':
@@ -2503,6 +2552,12 @@ def case_hard(ctx, rng, fmt):
             first, last = [cm[r][0] for r in S.reps], [cm[r][-1] for r in S.reps]
             if all(x != 0 for x in first):
                 hard(ctx, rng, fmt, 'r_start-first-r_stop-last', io, lambda: io.read(d, r_start=list(first), r_stop=list(last)), full, base_what)
+            if all(len(cm[r]) >= 7 and cm[r][1] != 0 for r in S.reps):
+                rs1, re1 = [cm[r][1] for r in S.reps], [cm[r][-2] for r in S.reps]
+                hard(ctx, rng, fmt, 'r_start-first-plus-1-r_stop-last-minus-1', io, lambda: io.read(d, r_start=list(rs1), r_stop=list(re1)), io.expect(r_start=rs1, r_stop=re1), base_what)
+            hard(ctx, rng, fmt, 'r_stop-last-plus-1', io, lambda: io.read(d, r_stop=[x + 1 for x in last]), None, base_what)
+            if all(x - 1 > 0 for x in first):
+                hard(ctx, rng, fmt, 'r_start-first-minus-1', io, lambda: io.read(d, r_start=[x - 1 for x in first]), None, base_what)
             mid = [cm[r][len(cm[r]) // 2] for r in S.reps]
             if all(x != 0 for x in mid):
                 hard(ctx, rng, fmt, 'r_start-equals-r_stop', io, lambda: io.read(d, r_start=list(mid), r_stop=list(mid)), None, base_what)
@@ -2531,6 +2586,11 @@ def case_hard(ctx, rng, fmt):
             nn = ['lbl|r%d' % r for r in S.reps]
             soft(ctx, fmt, 'names-as-tuple', io, lambda: io.read(d, names=tuple(nn)), io.expect(names=nn), base_what)
             hard(ctx, rng, fmt, 'idl-exactly-all', io, lambda: io.read(d, idl=[list(S.cfgs[r]) for r in lex]), full, base_what)
+            if all(len(S.cfgs[r]) >= 6 for r in S.reps):
+                i1 = {r: S.cfgs[r][1:] for r in S.reps}
+                i2 = {r: S.cfgs[r][:-1] for r in S.reps}
+                hard(ctx, rng, fmt, 'idl-all-but-the-first', io, lambda: io.read(d, idl=[list(i1[r]) for r in lex]), io.expect(idl=i1), base_what, ekw={'idl': i1})
+                hard(ctx, rng, fmt, 'idl-all-but-the-last', io, lambda: io.read(d, idl=[list(i2[r]) for r in lex]), io.expect(idl=i2), base_what, ekw={'idl': i2})
             for pair in equal_summary_pair(rng, {r: S.cfgs[r] for r in S.reps}):
                 hard(ctx, rng, fmt, 'idl-equal-summary-other-members', io, lambda pair=pair: io.read(d, idl=[list(pair[r]) for r in lex]),
                      io.expect(idl=pair), base_what, ekw={'idl': pair})
@@ -2567,6 +2627,9 @@ def case_hard(ctx, rng, fmt):
                 rg = range(pick[0], pick[-1] + 1, pick[1] - pick[0])
                 hard(ctx, rng, fmt, 'idl-as-range', io, lambda: io.read(d, idl=rg), e, base_what, ekw={'idl': pick})
             hard(ctx, rng, fmt, 'idl-exactly-all', io, lambda: io.read(d, idl=list(c)), full, base_what)
+            if len(c) >= 6:
+                hard(ctx, rng, fmt, 'idl-all-but-the-first', io, lambda: io.read(d, idl=list(c[1:])), io.expect(idl=list(c[1:])), base_what, ekw={'idl': list(c[1:])})
+                hard(ctx, rng, fmt, 'idl-all-but-the-last', io, lambda: io.read(d, idl=list(c[:-1])), io.expect(idl=list(c[:-1])), base_what, ekw={'idl': list(c[:-1])})
             for pair in equal_summary_pair(rng, {0: c}):
                 hard(ctx, rng, fmt, 'idl-equal-summary-other-members', io, lambda pair=pair: io.read(d, idl=list(pair[0])), io.expect(idl=pair[0]), base_what,
                      ekw={'idl': pair[0]})
@@ -2591,7 +2654,7 @@ def case_hard(ctx, rng, fmt):
         ctx.sample({'format': fmt, 'class': 'representations / name traps / boundaries / duplicates'})
 
 
-SCALES = [1e-300, 1e-150, 1e-8, 1e8, 1e150, 1e300]
+SCALES = [1e-310, 1e-300, 1e-150, 1e-8, 1e8, 1e150, 1e300]      # 1e-310: every stored number is subnormal
 
 
 def case_scale(ctx, rng, fmt):
@@ -3070,8 +3133,8 @@ def judge_npr(S, keys, idl=None):
                 for lab, om in others().items():
                     a[lab] = {S.ens: {cc: float(getattr(om[cc][index], part)) for cc in cl}}
                 return a
-            ok &= compare_table(c, tag, mat[index].real, re_, dict(w, key=str(name), index=list(index), part='real'), rtol=1e-12, also=lambda: also('real'))
-            ok &= compare_table(c, tag, mat[index].imag, im_, dict(w, key=str(name), index=list(index), part='imag'), rtol=1e-12, also=lambda: also('imag'))
+            ok &= compare_table(c, tag, mat[index].real, re_, dict(w, key=str(name), index=list(index), part='real'), rtol=RTOL_DERIVED, also=lambda: also('real'))
+            ok &= compare_table(c, tag, mat[index].imag, im_, dict(w, key=str(name), index=list(index), part='imag'), rtol=RTOL_DERIVED, also=lambda: also('imag'))
         return ok
 
     def jf(c, tag, res, exp, w):
@@ -3117,7 +3180,7 @@ def npr_matrix_methods(ctx, rng, S, fn, d):
     for idx in np.ndindex(*P.shape):
         ctx.ev()
         got = complex(P[idx].real.value, P[idx].imag.value)
-        if abs(got - want[idx]) > 1e-12 * max(1.0, float(np.max(np.abs(want)))):
+        if abs(got - want[idx]) > RTOL_DERIVED * max(1.0, float(np.max(np.abs(want)))):
             ctx.violation(fmt + ':matmul-central-value', {'index': list(idx), 'got': repr(got), 'exp': repr(complex(want[idx]))})
             break
     other = hdm.Npr_matrix(B, mom_in=np.array(S.p_in, dtype=float) + 1.0)
